@@ -10,21 +10,28 @@ Proof.
   cbn [a_NativeScript]. cbn [wfj all_wfj_opt all_wfj]. rewrite IH. vm_compute. reflexivity.
 Qed.
 
-Theorem serde_table_wfj d : Forall (fun e => wfj (snd e) = true) (serde_table d).
+(* annotations that contain the recursive NativeScript annotation or the (function-valued) embedded converters:
+   unfold down to those, then compute *)
+Ltac wfj_tac d :=
+  cbv [a_GeneralTransactionMetadata a_Metadatum a_ScriptRef a_TransactionOutput a_TransactionOutputs a_TransactionBody
+       a_Redeemers a_DataOption a_Datum];
+  cbn [wfj all_wfj all_wfj_opt forallb]; rewrite ?a_NativeScript_wfj; vm_compute; reflexivity.
+
+Theorem serde_table_wfj emb unemb d : Forall (fun e => wfj (snd e) = true) (serde_table emb unemb d).
 Proof.
-  unfold serde_table. repeat (apply Forall_cons; [cbn [snd]; first [apply a_NativeScript_wfj | (cbn [a_NativeScripts wfj]; apply a_NativeScript_wfj) | (vm_compute; reflexivity)]|]).
+  unfold serde_table. repeat (apply Forall_cons; [cbn [snd]; first [apply a_NativeScript_wfj | (cbn [a_NativeScripts wfj]; apply a_NativeScript_wfj) | wfj_tac d]|]).
   apply Forall_nil.
 Qed.
 
 (* For every annotated type: JSON written for a value in the annotation's domain whose maps were filled in ascending
    key order reads back as that value - hence == and the same CBOR bytes - whatever the external string functions. *)
-Theorem serde_table_roundtrip (ext_str : N -> bytes -> bytes) (ext_of_str : N -> bytes -> option bytes) d name s a v :
-  In (name, s, a) (serde_table d) ->
+Theorem serde_table_roundtrip (ext_str : N -> bytes -> bytes) (ext_of_str : N -> bytes -> option bytes) emb unemb d name s a v :
+  In (name, s, a) (serde_table emb unemb d) ->
   jwf ext_str ext_of_str a v = true -> canonical ext_str a v = true ->
   exists v', of_json_s ext_of_str a (json_s ext_str a v) = Ok v' /\ v' = v /\ enc s v' = enc s v.
 Proof.
   intros Hin Hv Hc. exists v. split; [|split; reflexivity]. apply serde_roundtrip; [|exact Hv|exact Hc].
-  pose proof (serde_table_wfj d) as W. rewrite Forall_forall in W. exact (W _ Hin).
+  pose proof (serde_table_wfj emb unemb d) as W. rewrite Forall_forall in W. exact (W _ Hin).
 Qed.
 
 (* non-vacuity: values of several annotated types inside the premises (placeholder external strings) *)
